@@ -448,14 +448,16 @@ func (V *Verifier) modifiesNames(ex *Exec, spec *FuncSpec, c *ssa.CallCommon) []
 				}
 				switch x.Fn {
 				case "elems":
-					es := sortOf(t.Underlying().(*types.Slice).Elem())
-					out = append(out, heapArrName(es))
-					ex.noteHeap(heapArrName(es), ArrS(SInt, ArrS(SInt, es)))
+					aet := t.Underlying().(*types.Slice).Elem()
+					es := sortOf(aet)
+					out = append(out, heapArrName(aet))
+					ex.noteHeap(heapArrName(aet), ArrS(SInt, ArrS(SInt, es)))
 				case "entries":
-					vs := sortOf(t.Underlying().(*types.Map).Elem())
-					out = append(out, mapDomName(vs), mapValName(vs))
-					ex.noteHeap(mapDomName(vs), ArrS(SInt, ArrS(SInt, SBool)))
-					ex.noteHeap(mapValName(vs), ArrS(SInt, ArrS(SInt, vs)))
+					tmt := t.Underlying().(*types.Map)
+					vs := sortOf(tmt.Elem())
+					out = append(out, mapDomName(tmt), mapValName(tmt))
+					ex.noteHeap(mapDomName(tmt), ArrS(SInt, ArrS(SInt, SBool)))
+					ex.noteHeap(mapValName(tmt), ArrS(SInt, ArrS(SInt, vs)))
 				}
 			}
 		}
